@@ -60,7 +60,35 @@ def find_impl(repo, c: Contract, ctx):
         return repo.find_getter(ctx or cls, name)
     if c.kind == "setter":
         return repo.find_setter(ctx or cls, name)
-    return repo.find_method(ctx or cls, name)
+    fi = repo.find_method(ctx or cls, name)
+    if fi is not None and (ctx or cls) == cls and fi.cls != cls and fi.kind == "method" and cls in repo.classes:
+        # the contract is written for a method DEFINED in `cls`, but `cls` (now) inherits it: for a `cls` receiver the
+        # call behaves exactly like `return super().<name>(<same arguments>)` written in `cls`.  Used when the
+        # inherited body has its own contract for this receiver class (which carries its loop invariants); otherwise
+        # the inherited body itself is verified against this contract.
+        base = CONTRACTS.get(f"{fi.cls}.{name}")
+        if f"{fi.cls}.{name}@{cls}" in CONTRACTS or (base is not None and cls in base.contexts):
+            return inherited_stub(repo, cls, fi)
+    return fi
+
+
+def inherited_stub(repo, cls, base_fi):
+    a = base_fi.node.args
+    if a.vararg or a.kwarg or a.kwonlyargs or a.posonlyargs:
+        return base_fi
+    names = [x.arg for x in a.args]
+    call = f"super().{base_fi.name}({', '.join(names[1:])})"
+    defaults = {}
+    src = f"def {base_fi.name}({', '.join(names)}):\n    return {call}\n"
+    node = ast.parse(src).body[0]
+    node.args = a                   # keep annotations and defaults of the inherited signature
+    for n in ast.walk(node):
+        if hasattr(n, "lineno"):
+            n.lineno = n.end_lineno = repo.classes[cls].node.lineno
+    csrc = repo.classes[cls]
+    fi = FuncInfo(node, csrc.module, cls, "method", base_fi.path)
+    fi.inherited_from = base_fi.cls
+    return fi
 
 
 TRANSPARENT_DECORATORS = {"property", "classmethod", "staticmethod", "wraps(func)"}
